@@ -61,6 +61,10 @@ void harness(void) {
   r = k_read((uint8_t*)&res, text, (uint8_t*)&tl, &color);
   H_ASSERT(!(r & 1) && ((r >> 4) == 0), "EOF at a message boundary: handleRead reports 'child done' and delivers nothing");
   H_ASSERT(res == resb + 1, "EOF without CHILD_END increments the result (non-zero exit status)");
+#if MODE == 0
   H_WITNESS(!(g_shortreads >= 1), "a schedule with a short read is reachable");
+#else
+  H_WITNESS(!(t1 == REPORT_OUT && t2 == REPORT_METRIC), "a stream with two different message kinds is reachable");
+#endif
   H_WITNESS(0, "end of harness reachable");
 }
